@@ -121,7 +121,10 @@ class EthAddr (_AddrBase):
         else:
           # Assume it's hex digits but they may not all be in two-digit
           # groupings (e.g., xx:x:x:xx:x:x). This actually comes up.
-          addr = b''.join([b"%02x" % (int(x,16),) for x in addr.split(b":")])
+          groups = [int(x,16) for x in addr.split(b":")]
+          if any(x < 0 or x > 0xff for x in groups):
+            raise RuntimeError("Bad format for ethernet address")
+          addr = b''.join([b"%02x" % (x,) for x in groups])
         # We should now have 12 hex digits (xxxxxxxxxxxx).
         # Convert to 6 raw bytes.
         addr = bytes(int(addr[x*2:x*2+2], 16) for x in range(0,6))
